@@ -11,6 +11,11 @@ import z3
 from proxy.http.websocket.frame import WebsocketFrame
 
 from vlib import kernel
+try:
+    from vlib import plugin as _plugin
+    _plugin.BYTESIO_MODEL[0] = True
+except Exception:      # native replay: no CrossHair plugin needed
+    pass
 from vlib.hk import CFG, begin, ok, fail, skip, B, concrete
 
 MASKS = [b'\x00\x00\x00\x00', b'\x12\x34\x56\x78', b'\xff\x01\x80\x7f']
